@@ -221,7 +221,7 @@ func ToBoolean(ctx *expr.Context, input system.Collection, args ...expr.Expressi
 	// Input reading
 	value, err := system.From(input[0])
 	if err != nil {
-		return nil, err
+		return system.Collection{}, nil // not convertible (e.g. a complex element): empty
 	}
 	// Input conversion
 	switch value := value.(type) {
@@ -337,7 +337,7 @@ func ToDecimal(ctx *expr.Context, input system.Collection, args ...expr.Expressi
 	// Input reading
 	value, err := system.From(input[0])
 	if err != nil {
-		return nil, err
+		return system.Collection{}, nil // not convertible (e.g. a complex element): empty
 	}
 	// Input conversion
 	switch value.(type) {
@@ -383,7 +383,7 @@ func ToInteger(ctx *expr.Context, input system.Collection, args ...expr.Expressi
 	// Input reading
 	value, err := system.From(input[0])
 	if err != nil {
-		return nil, err
+		return system.Collection{}, nil // not convertible (e.g. a complex element): empty
 	}
 	// Input conversion
 	switch value.(type) {
@@ -433,7 +433,7 @@ func ToQuantity(ctx *expr.Context, input system.Collection, args ...expr.Express
 	// Input reading
 	value, err := system.From(input[0])
 	if err != nil {
-		return nil, err
+		return system.Collection{}, nil // not convertible (e.g. a complex element): empty
 	}
 	// Input conversion
 	switch value := value.(type) {
